@@ -21,8 +21,11 @@ META = dict(E1_META, **{
         'exactly the closure up to that point; the stop point is forgotten '
         'after such a shutdown (the restart continues to the final point) '
         'and restored on restart otherwise. Stop task: automatic shutdown '
-        'happens only after that task succeeded. Clean stop: the scheduler '
-        'does not exit while the job world has live jobs of pooled tasks. '
+        'happens only after that task succeeded, and does happen once it '
+        'has (also when it finishes incomplete). Clean stop: the scheduler '
+        'does not exit while the job world has live jobs of pooled tasks, '
+        'and (bounded progress) a requested clean or --now stop has '
+        'completed before the 400-iteration cap (no job hangs here). '
         '--now: exits leaving live jobs; the restart re-attaches (polls) and '
         'launches no job a second time; final job set equals the '
         'uninterrupted run.'),
